@@ -129,7 +129,24 @@ Fixpoint tsize (t : tree) : nat :=
 Definition tsize_l (l : list tree) : nat := fold_right (fun c n => tsize c + n) 0 l.
 
 (* number of reference nodes in a tree *)
-Definition nrefs (t : tree) : nat := length (filter (fun x => is_ref_node (snd x)) (items t)).
+Fixpoint nrefs (t : tree) : nat :=
+  match t with
+  | T _ n kids => (if is_ref_node n then 1 else 0) + fold_right (fun c a => nrefs c + a) 0 kids
+  end.
+
+(* one child of a node, as squash treats it (the body of the `map` in tree.rs:390-402) *)
+Definition child_spec (lk : lookup) (d : nat) (c : tree) : list tree :=
+  match ref_key c with
+  | Some k =>
+      match d with
+      | S d' => match lk k with
+                | Some doc => t_children (expand lk d' doc)
+                | None => [expand0 c]
+                end
+      | O => [expand0 c]
+      end
+  | None => [expand lk d c]
+  end.
 
 (* the references that remain after squashing, computed without building the tree: the
    keys of the references kept, in the order of the result *)
@@ -182,9 +199,10 @@ Section SquashArena.
                 do ids <- (match g_child n with None => Ok [] | Some c => sibling_ids f (gr_arena g) c end);
                 do kids <- fold_right (fun i acc =>
                              do r <- acc;
-                             do ni <- node_at i;
-                             do t <- squash0 f i;
-                             Ok ((match ni with Some x => is_ref_node x | None => false end, t) :: r))
+                             do x <- (do ni <- node_at i;
+                                      do t <- squash0 f i;
+                                      Ok (match ni with Some x => is_ref_node x | None => false end, t));
+                             Ok (x :: r))
                            (Ok []) ids;
                 Ok (T (Some id) nd (order_tagged kids))
             end
@@ -209,8 +227,8 @@ Section SquashArena.
                   do ids <- (match g_child n with None => Ok [] | Some c => sibling_ids f (gr_arena g) c end);
                   do kids <- fold_right (fun i acc =>
                                do r <- acc;
-                               do ni <- node_at i;
-                               do x <- match ni with
+                               do x <- (do ni <- node_at i;
+                                       match ni with
                                        | Some (NRef k _ _) =>
                                            do t0 <- squash0 f i;
                                            match d with
@@ -224,7 +242,7 @@ Section SquashArena.
                                            | O => Ok (true, [t0])
                                            end
                                        | _ => do t <- go f i; Ok (false, [t])
-                                       end;
+                                       end);
                                Ok (x :: r))
                              (Ok []) ids;
                   Ok (T (Some id) nd (concat (order_tagged kids)))
